@@ -186,7 +186,8 @@ class WsgiPeer:
         """Call the app and iterate its result like a server does.
 
         close_after=j: the client goes away after the j-th item (j may be 0): the
-        server stops iterating and calls close(). Returns normally; the exception
+        server stops iterating and calls close() (also when on_item returns True:
+        the client went away at some instant and the server notices it now). Returns normally; the exception
         escaping the app/iteration (if any) is kept in self.exc, the one escaping
         close() in self.close_exc.
         """
@@ -202,9 +203,8 @@ class WsgiPeer:
                     self.monitor.on_item(item)
                     self.items.append(item if isinstance(item, bytes) else b"")
                     self.ctx.sch("item", len(item) if hasattr(item, "__len__") else -1)
-                    if on_item is not None:
-                        on_item(self, item)
-                    if close_after is not None and self.n_items >= close_after:
+                    stop = on_item(self, item) if on_item is not None else None
+                    if stop is True or (close_after is not None and self.n_items >= close_after):
                         self.ctx.fault("server_close_early")
                         break
         except BaseException as e:  # noqa
